@@ -672,7 +672,7 @@ impl Engine for EngineD {
         out
     }
     fn rule(&self) -> String {
-        "seeded worlds of valid sources (the repository's 7 example/test programs, the bundled base.sld as a user library, the bundled derived-form definitions as a program, fault-free histories of engine A, library worlds of engine B) hit by 1-3 storage faults on the program file or one library file (truncation at any byte, 1-3 bit flips, zeroed / duplicated / transposed 512-, 64- or 16-byte sector, stale tail from another file, BOM, directory / empty / dangling symlink in place of the file, dropped byte, one or two inserted bytes from a token-boundary alphabet, whole-file duplication faults), then used through Interpreter::eval_file (3/4) or eval of the lossily decoded text (1/4) on a fresh interpreter under a budget of 200000 evaluation steps and depth 1500, followed by four sanity forms on the same interpreter. distinct = hash of the damaged bytes; non-trivial = the damaged world did not simply evaluate as if undamaged and was not refused before reading".into()
+        "seeded worlds of valid sources (the repository's 7 example/test programs, the bundled base.sld as a user library, the bundled derived-form definitions as a program, histories of engine A with and without their fault transactions, library worlds of engine B, macro-heavy / ellipsis-heavy / non-ASCII / edge-escape programs) hit by 1-3 storage faults on the program file or one library file (truncation at any byte, 1-3 bit flips, zeroed / duplicated / transposed 512-, 64- or 16-byte sector, stale tail from another file, BOM, directory / empty / dangling symlink in place of the file, dropped byte, one or two inserted bytes from a token-boundary alphabet, whole-file duplication faults), then used through Interpreter::eval_file (3/4) or eval of the lossily decoded text (1/4) on a fresh interpreter under a budget of 200000 evaluation steps and depth 1500, followed by four sanity forms on the same interpreter. distinct = hash of the damaged bytes; non-trivial = the damaged world did not simply evaluate as if undamaged and was not refused before reading".into()
     }
     fn assumptions(&self) -> Vec<String> {
         vec![
